@@ -59,8 +59,8 @@ Write(st, c) ==
     IF h.dir \/ ~h.wr THEN Fail("EBADF", st)
     ELSE IF c.data = <<>> THEN Ok(st)
     ELSE Ret([R0 EXCEPT !.n = Len(c.data)],
-             [SetH(st, c, [h EXCEPT !.off = pos + Len(c.data)])
-                 EXCEPT !.ino[h.ino].data = WriteAtPos(data, pos, c.data)])
+             KillPriv([SetH(st, c, [h EXCEPT !.off = pos + Len(c.data)])
+                          EXCEPT !.ino[h.ino].data = WriteAtPos(data, pos, c.data)], h.ino))
 
 WriteAt(st, c) ==
     LET h == H(st, c)   data == Node(st, c).data IN
@@ -69,7 +69,7 @@ WriteAt(st, c) ==
     ELSE IF c.data = <<>> THEN Ok(st)       \* os.File.WriteAt issues no system call for an empty buffer
     ELSE IF h.dir \/ ~h.wr THEN Fail("EBADF", st)
     ELSE Ret([R0 EXCEPT !.n = Len(c.data)],
-             [st EXCEPT !.ino[h.ino].data = WriteAtPos(data, c.off, c.data)])
+             KillPriv([st EXCEPT !.ino[h.ino].data = WriteAtPos(data, c.off, c.data)], h.ino))
 
 Seek(st, c) ==
     LET h == H(st, c)
@@ -85,7 +85,7 @@ FTruncate(st, c) ==
     LET h == H(st, c) IN
     IF c.n < 0 THEN Fail("EINVAL", st)
     ELSE IF h.dir \/ ~h.wr THEN Fail("EINVAL", st)
-    ELSE Ok([st EXCEPT !.ino[h.ino].data = Resize(@, c.n)])
+    ELSE Ok(KillPriv([st EXCEPT !.ino[h.ino].data = Resize(@, c.n)], h.ino))
 
 FStat(st, c) == Ret([R0 EXCEPT !.info = InfoOf(st, H(st, c).ino)], st)
 
